@@ -18,10 +18,14 @@ for d in $(ls -d seeded/${PFX}*/ | sort -V); do
 import json,sys
 m=json.load(open(sys.argv[1]))
 chk=(m.get("after_strengthening") or {}).get("check") or m["breaks_property"]
-print(m.get("wave",1), m["breaks_property"], chk)
+print(m.get("wave",1), m["breaks_property"], chk, "obsolete" if m.get("obsolete") else "live")
 EOF
 )
   wave=$1; prop=$2; chk=$3
+  if [ "$4" = obsolete ]; then
+    printf '%s\t%s\t%s\t%s\t%s\t%s\t%s\n' "$id" "$wave" "$prop" "$chk" "$B" "OBSOLETE" "neutralised by a later fix commit (see meta.json)" | tee -a "$TMP"
+    continue
+  fi
   log=$(SEEDED_LINES=80 tools/seeded.sh run "$d" "$chk" "$B" 2>&1)
   if echo "$log" | grep -q '^VIOLATION'; then
     res=CAUGHT; sig=$(echo "$log" | grep -m1 '^violation' | cut -d' ' -f2 | tr -d ':')
